@@ -9,7 +9,7 @@ SPECS = r'''
 pub open spec fn list_index_ok(l: Seq<CelValue>, i: int, r: CelValue) -> bool {
     if 0 <= i < l.len() { r == l[i] }
     else if -l.len() <= i < 0 { r == l[l.len() + i] }
-    else { r is Err }
+    else { r is Err && !(r->Err_0 is Attribute) && !(r->Err_0 is Binding) }     // a bad index is a failure of its own, never "absent" (C08)
 }
 pub uninterp spec fn str_contains(hay: Seq<char>, needle: Seq<char>) -> bool;
 pub uninterp spec fn dyn_access(d: DynArc, key: Seq<char>) -> CelValue;
